@@ -867,6 +867,8 @@ pub fn plan_model(logical: &Logical) -> Model {
         absent_ids: logical.opts.absent_ids,
         unavailable: match logical.packaging {
             Packaging::Loose => logical.opts.url_located,
+            // (a left-out pack that stays at its recorded, non-empty location is found there)
+            Packaging::Concat if logical.opts.keep_left_out && !logical.opts.empty_locations => 0,
             Packaging::Concat => logical.opts.concat_leave_out,
             _ => 0,
         },
@@ -1132,6 +1134,9 @@ fn build_inner(
                 for f in &files {
                     let left_out = (1..=logical.n_packs).any(|p| logical.opts.concat_leave_out & (1 << (p - 1)) != 0 && pack_files.get(&p) == Some(f));
                     if logical.opts.keep_loose_beside && *f != man_path {
+                        kept.push(f.clone());
+                    } else if logical.opts.keep_left_out && left_out && !logical.opts.empty_locations {
+                        // not part of the one-file edition, but where the manifest says it is
                         kept.push(f.clone());
                     } else if logical.opts.keep_left_out && left_out {
                         // the pack that is not part of the one-file edition lies beside it, under
